@@ -971,6 +971,17 @@ def m_snapshot_lists(interp, args, kwargs):
     return {k: m_list(interp, [v], {}) for k, v in d.items()}
 
 
+def m_all_keys(interp, args, kwargs):
+    from .pdict import PDict
+    out = []
+    for d in args:
+        ks = d.universe if isinstance(d, PDict) else list(d.keys())
+        for k in ks:
+            if k not in out:
+                out.append(k)
+    return out
+
+
 def m_is_opaque(interp, args, kwargs):
     return isinstance(args[0], Opaque)
 
